@@ -94,6 +94,7 @@ type Engine struct {
 	Witness    *Violation // reachability witness (model of a completed path)
 	nsel       int
 	nclock     int
+	durStrs    map[*term.Term]*term.Term
 	fnIDs      map[*ssa.Function]int
 
 	harnessName string
@@ -120,6 +121,7 @@ func NewEngine(prog *ssa.Program, solver *smt.Solver) *Engine {
 		initPkgs: map[string]bool{}, probes: map[*term.Term]*term.Term{}, strToBytes: map[*term.Term]Slice{},
 		bytesAx: map[int]bool{}, symVars: map[string]*term.Term{}, violSeen: map[string]bool{},
 		Funcs: map[string]bool{}, ModelsUsed: map[string]bool{}, fnIDs: map[*ssa.Function]int{},
+		durStrs: map[*term.Term]*term.Term{},
 		promoted: map[ssa.Instruction]bool{}, RaceInstrs: map[ssa.Instruction]bool{}, Races: map[string]string{}, RaceCheck: true,
 	}
 	e.objKeys = append(e.objKeys, objKey{})
